@@ -15,9 +15,9 @@ type TAMon struct{}
 
 // taParams are the monitor's own reading of the configuration + machine model.
 type taParams struct {
-	Avail    IntSet
-	Isolated IntSet // kernel isolated ∩ available
-	Reserved IntSet // only known when given as a cpuset; for quantities taken from the snapshot (unspecified pick)
+	Avail            IntSet
+	Isolated         IntSet // kernel isolated ∩ available
+	Reserved         IntSet // only known when given as a cpuset; for quantities taken from the snapshot (unspecified pick)
 	ReservedIsCPUSet bool
 }
 
@@ -228,9 +228,9 @@ func (r *Runner) monTA(s *Step, rep *Reply) {
 		x := SetOf(MustList(c.Shadow.Cpus))
 		stale := ""
 		if _, has := grants[c.ID]; !has {
-			stale = "stale-pinning:container-lost-its-grant"
+			stale = "stale-pinning:container-lost-its-grant:"
 		} else if cr, _ := r.cacheRes(c.ID); cr.Cpus == "" {
-			stale = "stale-pinning:pool-has-no-sharable-cpu"
+			stale = "stale-pinning:pool-has-no-sharable-cpu:"
 		}
 		if !x.SubsetOf(p.Avail) {
 			r.Violate("C01", "outside-available", stale+s.Op, "after %s: %s is pinned to %q, outside the available CPUs %s", s.Op, c.Key, c.Shadow.Cpus, p.Avail)
@@ -279,12 +279,42 @@ func (r *Runner) monTA(s *Step, rep *Reply) {
 		}
 		return t
 	}
-	tight := false
+	// KF2's mechanism: CPUs of a pool's sharable supply that are held exclusively by grants made at a proper
+	// ancestor of that pool (slicing at an inner pool takes CPUs away from below without looking at what the
+	// child has promised). Only oversubscription that this accounts for carries the known signature.
+	parentOf := map[string]string{}
 	for _, pl := range snap.Pools {
+		parentOf[pl.Name] = pl.Parent
+	}
+	ancestorSliced := func(pl *topologyaware.VerifPool) int {
+		anc := map[string]bool{}
+		for a := parentOf[pl.Name]; a != ""; a = parentOf[a] {
+			anc[a] = true
+		}
+		own := SetOf(pl.Sharable)
+		n := 0
+		for _, g := range snap.Grants {
+			if anc[g.Pool] {
+				n += len(SetOf(g.Exclusive).Inter(own))
+			}
+		}
+		return n
+	}
+	poolByName := map[string]*topologyaware.VerifPool{}
+	for i := range snap.Pools {
+		poolByName[snap.Pools[i].Name] = &snap.Pools[i]
+	}
+	tight := false
+	for i := range snap.Pools {
+		pl := &snap.Pools[i]
 		promised := subtree(pl.Name, localShared)
 		capacity := 1000 * len(pl.FreeSharable)
 		if promised > capacity {
-			r.Violate("C03", "shared-oversubscribed", s.Op, "after %s: pool %s promises %dm shared CPU to its subtree but only %d sharable CPUs (%s) remain", s.Op, pl.Name, promised, len(pl.FreeSharable), SetOf(pl.FreeSharable))
+			sig := s.Op
+			if promised <= capacity+1000*ancestorSliced(pl) {
+				sig += ":drained-by-ancestor-slicing"
+			}
+			r.Violate("C03", "shared-oversubscribed", sig, "after %s: pool %s promises %dm shared CPU to its subtree but only %d sharable CPUs (%s) remain", s.Op, pl.Name, promised, len(pl.FreeSharable), SetOf(pl.FreeSharable))
 		}
 		if capacity-promised < 1000 {
 			tight = true
@@ -315,12 +345,16 @@ func (r *Runner) monTA(s *Step, rep *Reply) {
 			continue
 		}
 		if cfg.PinCPU && !r.cpuPreserveAnn(c) && g.CPUType != "preserve" {
+			why := ""
+			if pl := poolByName[g.Pool]; pl != nil && len(pl.FreeSharable) == 0 && ancestorSliced(pl) > 0 {
+				why = ":drained-by-ancestor-slicing"
+			}
 			if c.CpusTold && len(MustList(c.Shadow.Cpus)) == 0 && !r.NoShadow {
-				r.Violate("C03", "empty-cpuset", s.Op, "after %s: CPU-pinned container %s has an empty allowed CPU set", s.Op, c.Key)
+				r.Violate("C03", "empty-cpuset", s.Op+why, "after %s: CPU-pinned container %s has an empty allowed CPU set", s.Op, c.Key)
 			}
 			cr, okc := r.cacheRes(c.ID)
 			if okc && cr.Cpus == "" {
-				r.Violate("C03", "empty-cpuset", s.Op+":cache", "after %s: CPU-pinned container %s has an empty cpuset in the cache (pool %s has no sharable CPU left)", s.Op, c.Key, g.Pool)
+				r.Violate("C03", "empty-cpuset", s.Op+":cache"+why, "after %s: CPU-pinned container %s has an empty cpuset in the cache (pool %s has no sharable CPU left)", s.Op, c.Key, g.Pool)
 			}
 		}
 		// eligibility
@@ -339,6 +373,9 @@ func (r *Runner) monTA(s *Step, rep *Reply) {
 			group = "after-failed-update"
 		}
 		r.Count("c03_grants_" + group)
+		if len(g.Isolated) > 0 {
+			r.Count("c03_grants_isolated")
+		}
 		if len(g.Exclusive) != want {
 			r.Violate("C03", "exclusive-count", group, "after %s: %s (%s, request %dm, group %s) holds %d exclusive CPUs %v, the documented rules give %d", s.Op, c.Key, r.M.Pods[c.Pod].QoS, req, group, len(g.Exclusive), g.Exclusive, want)
 		}
